@@ -170,7 +170,7 @@ Definition sx_lexerr (e : lex_error) : sx := SL [sx_nat (le_line e); sx_nat (le_
 (* (0 model exts modular) | (1 lexer_errors parsed) | (2 errs) | (3 why) *)
 Definition sx_dsl_result (r : dsl_result) : sx :=
   match r with
-  | DOk m exts modular => SL [SA 0; sx_model m; sx_list (sx_pair sx_str sx_typedef) exts; sx_bool modular]
+  | DOk m exts modular => SL [SA 0; sx_model m; sx_list (fun p => SL [sx_str (fst p); sx_typedef (snd (snd p))]) exts; sx_bool modular]
   | DSyntax n p => SL [SA 1; sx_nat n; sx_bool p]
   | DListener es => SL [SA 2; sx_list sx_lerror es]
   | DPanic w => SL [SA 3; sx_str w]
